@@ -268,3 +268,45 @@ func H14_names() {
 		vsymAssert(err == terminfo.ErrTermNotFound && ti == nil, "an unknown name fails with ErrTermNotFound")
 	}
 }
+
+// H14_fgbg: for every entry - and for the NAME-256color entry LookupTerminfo fabricates when
+// only NAME-color or NAME-88color is registered - the combined colour string agrees with the
+// separate ones: SetFgBg(f, b) selects exactly what SetFg(f) followed by SetBg(b) selects,
+// for every symbolic f, b below the colour count.
+func H14_fgbg() {
+	ents := terminfo.VerifEntries()
+	base := ents[vsymChoice("base", len(ents))]
+	name := base.Name
+	if vsymChoice("variant", 2) == 1 {
+		stem := name
+		for _, sfx := range []string{"-88color", "-color"} {
+			if strings.HasSuffix(stem, sfx) {
+				stem = stem[:len(stem)-len(sfx)]
+			}
+		}
+		name = stem + "-256color"
+		if terminfo.VerifGet(name) != nil {
+			vsymCutPath("registered, not fabricated")
+		}
+	}
+	vsymNote("name", name)
+	ti, err := terminfo.LookupTerminfo(name)
+	if err != nil || ti == nil {
+		vsymCutPath("no such entry")
+	}
+	if ti.SetFg == "" || ti.SetBg == "" || ti.SetFgBg == "" || !strings.HasPrefix(ti.SetFg, "\x1b[") {
+		vsymAssert(ti.Colors < 256 || name == base.Name, "a fabricated 256-colour entry has all three colour strings")
+		return
+	}
+	f, b := vsymInt("f"), vsymInt("b")
+	vsymAssume(vsymAnd(vsymAnd(f >= 0, f < ti.Colors), vsymAnd(b >= 0, b < ti.Colors)))
+	sf, sb, sfb := ti.TParm(ti.SetFg, f), ti.TParm(ti.SetBg, b), ti.TParm(ti.SetFgBg, f, b)
+	ok := len(sf) > 3 && len(sb) > 3 && sf[len(sf)-1] == 'm' && sb[len(sb)-1] == 'm' && strings.HasPrefix(sb, "\x1b[")
+	if !ok {
+		return // not plain SGR strings: nothing to combine
+	}
+	want := sf[:len(sf)-1] + ";" + sb[2:]
+	// some descriptions separate the two halves with an empty parameter (";;"), which SGR ignores
+	want2 := sf[:len(sf)-1] + ";;" + sb[2:]
+	vsymAssert(sfb == want || sfb == want2, "SetFgBg(f,b) selects what SetFg(f) and SetBg(b) select: "+name)
+}
